@@ -75,6 +75,130 @@ Definition case_ok (c : case) : bool :=
   end.
 Definition mismatches (l : list case) : list nat := bad_indices case_ok l.
 
+(* ---- the lowering BEFORE fixes/C04-return-in-branch.patch, kept only to CLASSIFY a differing case as the
+   known finding C04-return-in-branch: a copy of Model.Loop.compile_stmt / compile_stmts / compile_branches in which a
+   branch body that can `return` is NOT moved into a function of its own.  No theorem speaks about it (what is wrong
+   with it is stated in Props/C04.v: C04_return_runs_two_branches_refuted). *)
+Module Pinned.
+Fixpoint compile_stmt0 (nm : names) (s : stmt) (a : alloc) {struct s} : option (list cmd * alloc) :=
+  match s with
+  | SCmd c => Some ([c], a)
+  | SIf b e =>
+    match b, e with
+    | BNil, _ => None
+    | BCons c body BNil, ENone =>
+      match compile_stmts0 nm body a with
+      | None => None
+      | Some (lines, a1) =>
+        match alloc_arrow lines a1 with
+        | None => None
+        | Some (aid, a2) =>
+          let (caller, fs) := single_if_code nm c lines aid in Some (caller, add_fns fs a2)
+        end
+      end
+    | _, _ =>
+      (* wrapped branches in order, each numbered after its body was lowered *)
+      match compile_branches0 nm (match e with ENone => false | ESome _ => true end) b a with
+      | None => None
+      | Some (ws, lastelif, a1) =>
+        match e, lastelif with
+        | ESome body, _ =>
+          match compile_stmts0 nm body a1 with
+          | None => None
+          | Some (lines, a2) => finish_chain nm ws (inl lines) a2
+          end
+        | ENone, Some cl => finish_chain nm ws (inr cl) a1
+        | ENone, None => None
+        end
+      end
+    end
+  | SWhile c body =>
+    let (k, a1) := get_count WHILE_NAME a in
+    match compile_stmts0 nm body a1 with
+    | None => None
+    | Some (lines, a2) => let (caller, fs) := while_code nm c lines k in Some (caller, add_fns fs a2)
+    end
+  | SDoWhile body c =>
+    let (k, a1) := get_count WHILE_NAME a in
+    match compile_stmts0 nm body a1 with
+    | None => None
+    | Some (lines, a2) => let (caller, fs) := dowhile_code nm c lines k in Some (caller, add_fns fs a2)
+    end
+  | SFor init c step body =>
+    match body with
+    | SNil => None                       (* "For loop content cannot be empty" *)
+    | _ =>
+      let (k, a1) := get_count FOR_NAME a in
+      match compile_stmts0 nm body a1 with
+      | None => None
+      | Some (lines, a2) => let (caller, fs) := for_code nm init c step lines k in Some (caller, add_fns fs a2)
+      end
+    end
+  end
+with compile_stmts0 (nm : names) (l : stmts) (a : alloc) {struct l} : option (list cmd * alloc) :=
+  match l with
+  | SNil => Some ([], a)
+  | SCons s r =>
+    match compile_stmt0 nm s a with
+    | None => None
+    | Some (l1, a1) =>
+      match compile_stmts0 nm r a1 with
+      | None => None
+      | Some (l2, a2) => Some (l1 ++ l2, a2)
+      end
+    end
+  end
+(* has_else = true: every branch is wrapped; false: the last one is returned unwrapped *)
+with compile_branches0 (nm : names) (has_else : bool) (b : branches) (a : alloc) {struct b}
+  : option (list wbr * option (cond * list cmd) * alloc) :=
+  match b with
+  | BNil => Some ([], None, a)
+  | BCons c body r =>
+    match compile_stmts0 nm body a with
+    | None => None
+    | Some (lines, a1) =>
+      if is_bnil r && negb has_else then Some ([], Some (c, lines), a1)
+      else
+        let (blines, a1') := (lines, a1) in   (* no isolation *)
+        let (k, a2) := get_count IF_ELSE a1' in
+        (* add_custom_private_function stores the branch function right away *)
+        match compile_branches0 nm has_else r (add_fn (wbr_fn nm (mkW c blines k)) a2) with
+        | None => None
+        | Some (ws, last, a3) => Some (mkW c blines k :: ws, last, a3)
+        end
+    end
+  end.
+
+
+Fixpoint compile_funs0 (nm : names) (fl : list (string * stmts)) (a : alloc) : option (list (list cmd) * alloc) :=
+  match fl with
+  | [] => Some ([], a)
+  | (_, l) :: r =>
+    match compile_stmts0 nm l a with
+    | None => None
+    | Some (lines, a1) =>
+      match compile_funs0 nm r a1 with
+      | None => None
+      | Some (ls, a2) => Some (lines :: ls, a2)
+      end
+    end
+  end.
+Definition model_out0 (c : case) : option (list string * list (string * string)) :=
+  match compile_funs0 (k_nm c) (k_funs c) alloc0 with
+  | Some (bodies, a) => Some (map pr_cmds bodies, map (fun d => (fst d, pr_cmds (snd d))) (fns a))
+  | None => None
+  end.
+(* the real text is exactly the unrepaired lowering AND that differs from the repaired one *)
+Definition case_is_pinned (c : case) : bool :=
+  negb (case_ok c) &&
+  match model_out0 c with
+  | Some (bodies, fs) => strs_eq bodies (k_real_users c) && fns_eq fs (k_real_fns c)
+  | None => false
+  end.
+End Pinned.
+(* indices of the cases whose real text is NOT the unrepaired lowering *)
+Definition not_pinned (l : list case) : list nat := bad_indices Pinned.case_is_pinned l.
+
 (* a single function is the special case of a pack with one function *)
 Lemma compile_funs_single : forall nm name l,
   compile_funs nm [(name, l)] alloc0 =
